@@ -72,11 +72,14 @@ def specStep (a : AState) (op : Op) : Obs × AState :=
 /-- The API contract. `P` bounds the page size from below; it only limits how far `Set` may advance past what the
     last `Get*` call is guaranteed to have left in the window.
     * `Set(p, k)`: `p + k` is at most one guaranteed page past the cursor;
-    * `SetOffset o`: a byte position of the input, ahead of the cursor or at/after the active anchor;
+    * `SetOffset o`: a byte position of the input — or, while an anchor is set, also the position just after the last
+      byte (rewinding/forwarding to the very end of the input, legal since 70e58ff) — ahead of the cursor or at/after
+      the active anchor;
     * `SetAnchor o` / `SetStableAnchor o`: at the cursor, or between the active anchor and the cursor. -/
 def Valid (P : Nat) (a : AState) : Op → Prop
   | .set k => ∀ p, a.lastp = some p → p + k ≤ a.cur + min P (a.src.length - a.cur)
-  | .setOffset o => o < a.src.length ∧ (a.cur ≤ o ∨ ∃ A, a.anchor = some A ∧ A ≤ o)
+  | .setOffset o => (o < a.src.length ∨ (o = a.src.length ∧ a.anchor ≠ none)) ∧
+      (a.cur ≤ o ∨ ∃ A, a.anchor = some A ∧ A ≤ o)
   | .setAnchor o => o ≤ a.cur ∧ (o = a.cur ∨ ∃ A, a.anchor = some A ∧ A ≤ o)
   | .setStableAnchor o => o ≤ a.cur ∧ (o = a.cur ∨ ∃ A, a.anchor = some A ∧ A ≤ o)
   | _ => True
@@ -86,7 +89,7 @@ def validB (P : Nat) (a : AState) : Op → Bool
   | .set k => match a.lastp with
     | some p => decide (p + k ≤ a.cur + min P (a.src.length - a.cur))
     | none => true
-  | .setOffset o => decide (o < a.src.length) && (decide (a.cur ≤ o) || match a.anchor with
+  | .setOffset o => (decide (o < a.src.length) || (decide (o = a.src.length) && a.anchor.isSome)) && (decide (a.cur ≤ o) || match a.anchor with
     | some A => decide (A ≤ o)
     | none => false)
   | .setAnchor o => decide (o ≤ a.cur) && (decide (o = a.cur) || match a.anchor with
@@ -112,7 +115,9 @@ theorem validB_iff (P : Nat) (a : AState) (op : Op) : validB P a op = true ↔ V
     cases a.lastp with
     | none => simp
     | some p => simp
-  | setOffset o => simp only [validB, Valid, Bool.and_eq_true, Bool.or_eq_true, decide_eq_true_eq, anchor_ex_iff]
+  | setOffset o =>
+    have hs : a.anchor.isSome = true ↔ a.anchor ≠ none := by cases a.anchor <;> simp
+    simp only [validB, Valid, Bool.and_eq_true, Bool.or_eq_true, decide_eq_true_eq, anchor_ex_iff, hs]
   | setAnchor o => simp only [validB, Valid, Bool.and_eq_true, Bool.or_eq_true, decide_eq_true_eq, anchor_ex_iff]
   | setStableAnchor o => simp only [validB, Valid, Bool.and_eq_true, Bool.or_eq_true, decide_eq_true_eq, anchor_ex_iff]
   | getLine => simp [validB, Valid]
